@@ -18,6 +18,8 @@ CLAUSES = {
     "C04": ["C04_iterates", "C04_reader", "C20_exposed"],
     "C05": ["C05_value", "C01_settles", "C20_exposed"],
     "C06": ["C06_entity", "C06_condition", "C06_enable", "C01_value", "C02_bag", "C01_settles"],
+    "C07": ["C07_decodes", "C07_form", "C07_missing_entity", "C07_entity_kind", "C07_arithmetic", "C07_decider", "C07_constant", "C07_condition",
+            "C07_wires", "C07_version", "C07_forms_differ", "C01_value", "C02_bag", "C03_value", "C06_entity", "C06_condition", "C06_enable", "C01_settles"],
     "C08": ["C08_proto", "C08_overlap", "C08_wire_ends", "C08_wire_colour", "C08_wire_reach", "C01_value", "C02_bag", "C03_value", "C06_entity",
             "C06_condition", "C06_enable", "C01_settles", "C08_layout_trace", "C08_layout_invariant", "C08_outcome"],
     "C09": ["C09_bag", "C09_props", "C09_extra"],
@@ -436,7 +438,7 @@ def c12(ctx):
     run_refine(ctx, sel, {"DomCap": 700}, item_fn=item, variants=[("", {}), ("#twin", {"__twin": True})], batch_size=20)
 
 
-def run_cli(entry, args, cwd, timeout=240, hashseed="0"):
+def run_cli(entry, args, cwd, timeout=240, hashseed="0", trace=None):
     """Run the real command line as a subprocess (entry: 'module' = python -m dsl_compiler, 'script' = compile.py,
     'factompile' = the console entry point function)."""
     import subprocess
@@ -444,6 +446,8 @@ def run_cli(entry, args, cwd, timeout=240, hashseed="0"):
     env = dict(os.environ, PYTHONPATH=REPO, PYTHONHASHSEED=str(hashseed), FACTOMPILER_VERIF="1",
                FACTOMPILER_VERIF_LAYOUT=json.dumps({"det": True, "seed": 7, "dtime": 0.5, "workers": 1}))
     env.pop("FACTOMPILER_VERIF_TRACE", None)
+    if trace:
+        env["FACTOMPILER_VERIF_TRACE"] = trace
     if entry == "module":
         cmd = [VENV_PY, "-m", "dsl_compiler"] + args
     elif entry == "script":
@@ -692,11 +696,8 @@ def c08(ctx):
     ok_recs = recs
     compiled = compile_records(ctx, recs)
     ctx.results = compiled
-    # outcome clause: scripted total failure => refused; otherwise a refusal is outside the antecedent
-    for p in recs:
-        r = compiled[p["id"]][""]
-        if p["expect_error"] and r.get("status") == "ok":
-            ctx.violation(p["id"], "C08_outcome", "every attempt was scripted to fail but a blueprint was emitted", {"src": p["src"], "item": {}, "job": p["job"]})
+    # (a scripted total failure must give no blueprint: decided by the trace validation below - a trace whose solver calls all
+    #  fail, or whose four routing attempts all fail, ends in the model's error phase and is rejected if a blueprint was emitted)
     good = [p for p in recs if compiled[p["id"]][""].get("status") == "ok"]
     ctx.cov["scripted_refusals"] = sum(1 for p in recs if compiled[p["id"]][""].get("status") == "rejected")
     ctx.cov["blueprints_with_relays"] = sum(1 for p in good if any(e["name"].endswith("pole") or e["name"] == "substation"
@@ -851,6 +852,180 @@ def c19(ctx):
     ctx.cov["programs"] = len(recs)
     for r in recs[:3]:
         ctx.sample({"src": srcs[r["id"]], "variants_compared": r["how"]})
+
+
+def decode_blueprint_text(text):
+    """base64 + zlib + JSON (blueprint string) or plain JSON, with the standard library only."""
+    import base64
+    import zlib
+    t = text.strip()
+    if t.startswith("{"):
+        return json.loads(t), "json"
+    if t.startswith("0"):
+        return json.loads(zlib.decompress(base64.b64decode(t[1:]))), "string"
+    raise ValueError("text is neither a blueprint string nor JSON")
+
+
+def prep_plan(ev):
+    """Tag plan operands ([sig] / [const]) because TLC's equality is typed; everything else is passed through."""
+    def tag(v):
+        if isinstance(v, bool) or v is None:
+            return None
+        if isinstance(v, int):
+            return {"const": v}
+        if isinstance(v, str):
+            return {"sig": v}
+        return None
+    pls = []
+    for pl in ev["placements"]:
+        pr = dict(pl.get("props") or {})
+        for k in ("left_operand", "right_operand", "output_value"):
+            if k in pr:
+                t = tag(pr[k])
+                if t is None:
+                    pr.pop(k)
+                else:
+                    pr[k] = t
+        for k in list(pr):
+            if k.endswith("_signal_id") or k in ("footprint", "alignment"):
+                pr.pop(k)
+        if isinstance(pr.get("signals"), list):
+            pr.pop("signals")
+        pls.append({"id": pl["id"], "type": pl["type"], "props": pr})
+    wires = [{k: v for k, v in w.items() if v is not None} for w in ev["wires"]]
+    return {"placements": pls, "wires": wires}
+
+
+@prop("C07")
+def c07(ctx):
+    from common import run_tlc, tagged_tuples, tlc_errors, unq
+    from encode import enc
+    quick = ctx.tier == "quick"
+    confs = gen.generate("GenInvoke", deps=())
+    confs.sort(key=lambda c: json.dumps(c, sort_keys=True))
+    progs = []
+    for mod, pref, n, filt in (("GenScalar", "sc", 6, lambda p: p["grp"] in ("form", "share")), ("GenBundle", "bu", 4, None),
+                               ("GenEntity", "en", 5, lambda p: p["grp"].startswith("c06:")), ("GenMem", "me", 3, lambda p: p["grp"] in ("cell", "latch1")),
+                               ("GenLayout", "gl", 3, None), ("GenFL", "fl", 3, lambda p: p.get("mode") != "hist")):
+        ps = with_ids(gen.generate(mod), pref)
+        if filt:
+            ps = [p for p in ps if filt(p)]
+        progs += pick(ps, n if quick else 3 * n, ctx.seed)
+    nconf = 24 if quick else len(confs)
+    off = ctx.seed % len(confs)
+    chosen = [confs[(off + i * (len(confs) // nconf)) % len(confs)] for i in range(nconf)] if quick else confs
+    invs = []
+    for i, c in enumerate(chosen):
+        reps = 1 if quick else 2
+        for k in range(reps):
+            invs.append((c, progs[(i * reps + k + ctx.seed) % len(progs)]))
+    ctx.cov["corpus_size"] = len(confs) * len(progs)
+    ctx.cov["exhaustive"] = False
+    ctx.cov["rule"] = ("invocations = GenInvoke (every valid combination of entry point x file / -i input x string / --json x stdout / -o x "
+                       "none / --no-optimize / --power-poles medium / --name: 80 configurations; quick takes 24 seed-rotated ones) x programs "
+                       "from six families; each run as a REAL subprocess; the emitted text is decoded with the standard library and compared "
+                       "by Export.tla entity by entity and wire by wire with the planned circuit dumped by hook H1 in the same process, the "
+                       "string and JSON forms of the same program must decode to the same blueprint, and the decoded text is executed "
+                       "against the interpreter (Refine1)")
+    ctx.assumptions = ASSUME_BASE + ["base64/zlib/JSON decoding is done by the harness with the Python standard library"]
+    clidir = os.path.join(ctx.wd, "cli")
+    os.makedirs(clidir, exist_ok=True)
+    from concurrent.futures import ThreadPoolExecutor
+
+    def one(k):
+        c, p = invs[k]
+        src_file = os.path.join(clidir, "p%d.facto" % k)
+        with open(src_file, "w") as fh:
+            fh.write(p["src"])
+        out_file = os.path.join(clidir, "p%d.out" % k)
+        trace = os.path.join(clidir, "p%d.trace" % k)
+        args = [src_file] if c["input"] == "file" else ["-i", p["src"]]
+        if c["form"] == "json":
+            args.append("--json")
+        if c["out"] == "file":
+            args += ["-o", out_file]
+        if c["opt"] == "noopt":
+            args.append("--no-optimize")
+        elif c["opt"] == "poles":
+            args += ["--power-poles", "medium"]
+        elif c["opt"] == "name":
+            args += ["--name", "Verif Name"]
+        code, so, se = run_cli(c["entry"], args, clidir, trace=trace)
+        text = so
+        if c["out"] == "file" and os.path.exists(out_file):
+            text = open(out_file).read()
+        plan = None
+        if os.path.exists(trace):
+            for line in open(trace):
+                e = json.loads(line)
+                if e.get("ev") == "plan":
+                    plan = e
+        return code, text, se, plan
+    with ThreadPoolExecutor(8) as ex:
+        outs = list(ex.map(one, range(len(invs))))
+    recs, bps, compiled, rprogs = [], [], {}, []
+    for k, ((c, p), (code, text, se, plan)) in enumerate(zip(invs, outs)):
+        rid = "%s#%s-%s-%s-%s-%s" % (p["id"], c["entry"], c["input"], c["form"], c["out"], c["opt"])
+        if code != 0:
+            note_impl_reject(ctx, p, {"status": "rejected", "message": (se or "")[-300:]})
+            continue
+        try:
+            dec, form = decode_blueprint_text(text)
+        except Exception as ex:  # noqa: BLE001
+            ctx.violation(rid, "C07_decodes", "exit status 0 but the emitted text does not decode: %s" % ex, {"src": p["src"], "item": {}, "conf": c})
+            continue
+        if form != c["form"]:
+            ctx.violation(rid, "C07_form", "asked for %s, got %s" % (c["form"], form), {"src": p["src"], "item": {}, "conf": c})
+        if plan is None:
+            raise Machinery("no plan event recorded for %s (hook H1 missing?)" % rid)
+        items = sorted({x["item"] for x in p.get("cins", [])}) if p.get("cins") else []
+        bps.append(prep_bp(dec, extra=items))
+        recs.append({"id": rid, "u": len(bps), "plan": prep_plan(plan)})
+        q = dict(p)
+        q["id"] = rid
+        q["job"] = {"conf": c}
+        if c["opt"] != "poles":
+            rprogs.append(q)
+        compiled[rid] = {"": {"status": "ok", "bp": dec}}
+    ctx.add("evaluations", len(invs))
+    ctx.cov["invocations_ok"] = len(recs)
+    if not recs:
+        raise Machinery("no invocation succeeded")
+    # the other form of the same program through the API path must decode to the same blueprint: compare string vs json pairs
+    byprog = {}
+    for r in recs:
+        byprog.setdefault(r["id"].split("#")[0] + "|" + r["id"].rsplit("-", 1)[1], []).append(r)
+    for lst in byprog.values():
+        forms = {("-json-" in r["id"]): r for r in lst}
+        if len(forms) == 2:
+            forms[False]["u2"] = forms[True]["u"]
+    d = os.path.join(ctx.wd, "export")
+    os.makedirs(d)
+    with open(os.path.join(d, "Data.tla"), "w") as fh:
+        fh.write("---- MODULE Data ----\nEXTENDS Integers, TLC\nBPs == <<\n %s\n>>\nRecs == <<\n %s\n>>\n====\n" % (
+            ",\n ".join(enc(b) for b in bps), ",\n ".join(enc(r) for r in recs)))
+    with open(os.path.join(d, "T.tla"), "w") as fh:
+        fh.write("---- MODULE T ----\nEXTENDS Export\n====\n")
+    with open(os.path.join(d, "T.cfg"), "w") as fh:
+        fh.write("INIT EInit\nNEXT ENext\n")
+    code, out, wall = run_tlc(d, "T", cfg="T.cfg", timeout=1800)
+    chk = tagged_tuples(out, "CHECKED")
+    if tlc_errors(out) or not chk or int(chk[0][1]) != len(recs):
+        raise Machinery("Export.tla did not evaluate all %d records: %s" % (len(recs), (tlc_errors(out) or [out[-1500:]])[0][:1500]))
+    ctx.level = "translation_validation"
+    ctx.cov["programs"] = len(recs)
+    ctx.cov["entities_compared"] = sum(len(r["plan"]["placements"]) for r in recs)
+    ctx.cov["wires_compared"] = sum(len(r["plan"]["wires"]) for r in recs)
+    ctx.cov["disagreements_checked"] = ctx.cov["entities_compared"] + ctx.cov["wires_compared"]
+    srcs = {r["id"]: p for r, p in zip(recs, [x for x in rprogs])}
+    allsrc = {rid: pp["src"] for rid, pp in ((q["id"], q) for q in rprogs)}
+    for f in tagged_tuples(out, "FAIL"):
+        rid = unq(f[1])
+        ctx.violation(rid, unq(f[2]), ", ".join(f[3:]), {"src": allsrc.get(rid), "item": {}, "module": "Export"})
+    # executing the decoded text gives the planned behaviour: Refine1 on the decoded text
+    def item(p, rs):
+        return layout_item(p, rs[""])
+    run_refine(ctx, rprogs, {"DomCap": 30 if quick else 100}, item_fn=item, batch_size=10, precompiled=compiled)
 
 
 def design_mc(ctx, module, cfg):
